@@ -105,4 +105,31 @@ PROPS = {
         "partial": "byte-level round-trip theorem over all messages not yet proved; message-level round trip, totality and bounds are",
         "assumptions": ["times within the protobuf Timestamp range [0001-01-01, 10000-01-01)", "tombstone counts within int32", "strings valid UTF-8 (proto3 requirement)"],
     },
+    "C10": {
+        "required_theorems": ["c10_decode_encode", "c10_empty_key_counter", "gen_limits_pinned"],
+        "n": {"quick": 20000, "thorough": 200000},
+        "thorough_seeds": 3,
+        "rule": "random configuration TYPES built at run time with reflect.StructOf (1-4 tagged fields: scalar, *scalar, []scalar, [n]scalar, map[string]scalar, flat struct, *flat struct; "
+                "14 scalar kinds; point and edgepoint tags; node id/parent) and random values (boundary integers +-(2^53-1), width limits, empty/unicode/NUL strings, subnormal and huge floats, "
+                "nil vs non-nil, 0..9 elements; a separate 'wide' stream with 999/1000/1001 elements, integers beyond 2^53 and empty map keys): "
+                "enc (points compared sorted), rt (Encode then Decode into the zero value), dm (DiffPoints then MergePoints onto a copy); distinct = distinct case line",
+        "trusted": ["reflect (modelled by a deep embedding of types and values)", "IEEE-754 / Go numeric conversions (parameter Num with the stated laws NumLaws; instantiated with real floats in the driver)"],
+        "modelled": ["data/encode.go Encode, appendPointsFromValue, pointFromPrimitive, DiffPoints; data/decode.go Decode, SetValue, setVal; data/merge.go MergePoints modelled by hand (Siot/Model/Config.lean)",
+                     "child lists (`child` tag) and FindNodeInStruct recursion are not modelled (top-level struct only)",
+                     "Diff/Merge: the executable model and the specification oracle run on every dm case; the theorem merge(diff a b) a = b is not yet proved (decode(encode v) = v is)"],
+        "partial": "theorem for the Diff/Merge half not yet proved; checked by correspondence with the oracle `merged value = b`",
+        "assumptions": ["NumLaws: int/uint <-> float64 exact within +-(2^53-1), float32 widening/narrowing inverse, FloatToBool", "containers of pointers and pointers inside flat structs are outside the supported universe"],
+    },
+    "C11": {
+        "required_theorems": ["c11_never_panics", "c11_merge_never_panics", "c11_undeclared_ignored", "gen_config_pinned"],
+        "n": {"quick": 20000, "thorough": 200000},
+        "thorough_seeds": 3,
+        "rule": "the same run-time types and prior values (nil, empty, shorter, longer) with 0-5 hostile points per list: keys '', '0','-1','+3','007','1e3','99999999999999999999','1000','1001',' 1','abc', "
+                "struct/map keys; values 0,1,-1,0.5,2^8,2^16,1e19,1e20,2^63,2^64,+-Inf,NaN,5e-324; tombstones 0,1,2,3,-1,-2,2^31; declared and undeclared types, point and edge lists; "
+                "Decode and MergePoints under recover; distinct = distinct case line",
+        "trusted": ["reflect (deep embedding)", "Go's float->int conversion of NaN/out-of-range values (parameter; cannot panic in Go)"],
+        "modelled": ["data/decode.go Decode/SetValue/setVal and data/merge.go MergePoints with every reflect Index/Set as a checked operation (outcome panic)",
+                     "unexported tagged fields and maps with a named key type are outside the supported universe (reflect would panic on Set / SetMapIndex)"],
+        "assumptions": ["field values have the shapes their Go types prescribe (Typed)"],
+    },
 }
